@@ -85,9 +85,13 @@ pub fn minimise(
     class: &str,
     fail_step: usize,
     budget: Duration,
+    known: &[String],
+    on_improve: &mut dyn FnMut(&Value),
 ) -> (Value, ShrinkStats) {
     let t0 = Instant::now();
     let mut acc = Acc::new(Shared::new());
+    // recorded findings stay skipped while minimising (unless the case is about one)
+    acc.known = std::sync::Arc::new(known.iter().filter(|k| !super::class_is_known(&[(*k).clone()], class)).cloned().collect());
     let mut best = case.clone();
     let mut execs = 0u64;
     let ops_before = ops_of(case).len();
@@ -101,6 +105,7 @@ pub fn minimise(
             execs += 1;
             if fails_same(engine, &cand, class, &mut acc).is_some() {
                 best = cand;
+                on_improve(&best);
             }
         }
     }
@@ -125,6 +130,7 @@ pub fn minimise(
                 execs += 1;
                 if fails_same(engine, &cand, class, &mut acc).is_some() {
                     best = cand;
+                on_improve(&best);
                     progress = true;
                     // keep `start`: the next chunk slid into place
                 } else {
@@ -179,6 +185,7 @@ pub fn minimise(
                         execs += 1;
                         if fails_same(engine, &cand, class, &mut acc).is_some() {
                             best = cand;
+                on_improve(&best);
                             progress = true;
                             break;
                         }
@@ -218,6 +225,7 @@ pub fn minimise(
                 execs += 1;
                 if fails_same(engine, &cand, class, &mut acc).is_some() {
                     best = cand;
+                on_improve(&best);
                     break;
                 }
             }
